@@ -191,8 +191,8 @@ func childMain(args []string) {
 		res.UndoForeign, res.UndoMissing = undoLook(k.Ch, dir, 8)
 	}
 	write() // in case something below kills the process outright
-	if mode == "stage2" {
-		stage2(k, dir, bf, res, write)
+	if mode == "stage2" || mode == "stage2all" {
+		stage2(k, dir, bf, res, write, mode == "stage2all")
 		return
 	}
 	res.Recovery = "none"
@@ -252,8 +252,9 @@ func childMain(args []string) {
 // stage2: this process is the FIRST restart after a crash. It recovers like the client, continues the workload (all its
 // blocks, no snapshot: UTXO_SKIP_SAVE_BLOCKS is huge), flushes the blocks with Idle and is then "killed" a second time:
 // the directory is captured at the chosen vhook points and once more after Idle; the process exits without Close.
-// C07_S2_ALL=1 (thorough): capture at every point; otherwise at blockdb.write:idx-written hits and at the end.
-func stage2(k *chainkit.Kit, dir, bf string, res *ChildRes, write func()) {
+// mode stage2all (thorough, first data-written hit of each scripted workload): capture at every point; otherwise at
+// blockdb.write:idx-written hits and at the end.
+func stage2(k *chainkit.Kit, dir, bf string, res *ChildRes, write func(), all bool) {
 	out := strings.TrimRight(dir, "/") + ".s2/"
 	os.MkdirAll(out, 0770)
 	res.Recovery = clientRecover(k.Ch)
@@ -263,7 +264,6 @@ func stage2(k *chainkit.Kit, dir, bf string, res *ChildRes, write func()) {
 		return
 	}
 	utxo.UTXO_SKIP_SAVE_BLOCKS = 1000000
-	all := os.Getenv("C07_S2_ALL") != ""
 	cnt := map[string]int{}
 	n := 0
 	var mu sync.Mutex
